@@ -3,6 +3,8 @@
 -/
 import SkNet.Lemmas.VoteFixed
 import Mathlib.Data.List.Nodup
+import Mathlib.Data.List.Perm.Subperm
+import Mathlib.Logic.Function.Iterate
 
 namespace SkNet.Vote
 open SkNet.Classify
@@ -35,9 +37,19 @@ theorem argwhere_nodup (p : Int → Bool) (l : List Int) : (argwhere p l).Nodup 
   unfold argwhere
   exact List.Nodup.filter _ List.nodup_range
 
-/-- the contract of `np.random.shuffle` / `np.argsort` on `k` positions: distinct positions below `k` -/
+/-- the contract of `np.random.shuffle` / `np.argsort` on `k` positions: a permutation of `0 … k-1`, given as
+    `k` distinct positions below `k` -/
 def SigmaOK (sigma : Option (List Nat)) (k : Nat) : Prop :=
-  ∀ s, sigma = some s → s.Nodup ∧ ∀ q ∈ s, q < k
+  ∀ s, sigma = some s → s.Nodup ∧ s.length = k ∧ ∀ q ∈ s, q < k
+
+/-- `k` distinct numbers below `k` are all the numbers below `k` -/
+theorem perm_complete (s : List Nat) (k : Nat) (hnd : s.Nodup) (hlen : s.length = k) (hlt : ∀ q ∈ s, q < k) :
+    ∀ q, q < k → q ∈ s := by
+  have hsub : s ⊆ List.range k := fun q hq => List.mem_range.mpr (hlt q hq)
+  have hsp : s.Subperm (List.range k) := List.subperm_of_subset hnd hsub
+  have hperm : s.Perm (List.range k) := hsp.perm_of_length_le (by simp [hlen])
+  intro q hq
+  exact hperm.symm.subset (List.mem_range.mpr hq)
 
 theorem mem_reorder (ix : List Nat) (sigma : Option (List Nat)) (h : SigmaOK sigma ix.length) :
     ∀ j ∈ reorder ix sigma, j ∈ ix := by
@@ -48,9 +60,24 @@ theorem mem_reorder (ix : List Nat) (sigma : Option (List Nat)) (h : SigmaOK sig
   | some s =>
     simp only [List.mem_map] at hj
     obtain ⟨q, hq, rfl⟩ := hj
-    have hlt := (h s rfl).2 q hq
+    have hlt := (h s rfl).2.2 q hq
     rw [List.getD_eq_getElem?_getD, List.getElem?_eq_getElem hlt]
     exact List.getElem_mem hlt
+
+/-- every node of the index is visited, whatever the order -/
+theorem reorder_complete (ix : List Nat) (sigma : Option (List Nat)) (h : SigmaOK sigma ix.length) :
+    ∀ j ∈ ix, j ∈ reorder ix sigma := by
+  intro j hj
+  unfold reorder
+  cases sigma with
+  | none => exact hj
+  | some s =>
+    obtain ⟨hnd, hlen, hlt⟩ := h s rfl
+    obtain ⟨q, hq, rfl⟩ := List.mem_iff_getElem.mp hj
+    simp only [List.mem_map]
+    refine ⟨q, perm_complete s ix.length hnd hlen hlt q hq, ?_⟩
+    rw [List.getD_eq_getElem?_getD, List.getElem?_eq_getElem hq]
+    rfl
 
 theorem reorder_nodup (ix : List Nat) (sigma : Option (List Nat)) (hix : ix.Nodup)
     (h : SigmaOK sigma ix.length) : (reorder ix sigma).Nodup := by
@@ -58,7 +85,7 @@ theorem reorder_nodup (ix : List Nat) (sigma : Option (List Nat)) (hix : ix.Nodu
   cases sigma with
   | none => exact hix
   | some s =>
-    obtain ⟨hnd, hlt⟩ := h s rfl
+    obtain ⟨hnd, _, hlt⟩ := h s rfl
     simp only
     refine (List.nodup_map_iff_inj_on hnd).mpr ?_
     intro a ha b hb hab
@@ -156,5 +183,87 @@ theorem fitInv_result (c : Csr Rat) (hw : ∀ p, 0 ≤ c.data.getD p 0) (values 
       rw [voteUpdate_outside _ _ _ _ _ hj]
       exact h0.out j d hj
   · exact ⟨instantiateVars_length values, fun _ hx => hx, fun _ _ _ => rfl⟩
+
+/-! ### why the loop stopped -/
+
+/-- a sweep changes nothing on the nodes it updates iff it changes nothing at all: the test of the loop on
+    `labels[index_remain]` is a test on the whole label vector -/
+theorem voteUpdate_config_iff (c : Csr Rat) (labels : List Int) (index : List Nat) :
+    config (voteUpdate c labels index) index = config labels index ↔ voteUpdate c labels index = labels := by
+  constructor
+  · intro h
+    unfold config at h
+    have hpt := List.map_inj_left.mp h
+    have hlen := voteUpdate_length c labels index
+    apply List.ext_getElem hlen
+    intro j h1 h2
+    have hget : ∀ (l : List Int) (hj : j < l.length), l[j] = l.getD j (-1) := by
+      intro l hj
+      rw [List.getD_eq_getElem?_getD, List.getElem?_eq_getElem hj]
+      rfl
+    rw [hget _ h1, hget _ h2]
+    by_cases hm : j ∈ index
+    · exact hpt j hm
+    · exact voteUpdate_outside c labels index j (-1) hm
+  · intro h
+    rw [h]
+
+/-- the result of the loop: either the allowed number of sweeps is exhausted, or the configuration of the result
+    was seen before — on entry, or after an earlier sweep; the result is the iterate of the sweep -/
+theorem propLoop_stop (step key : List Int → List Int) :
+    ∀ (fuel : Nat) (nIter : Option Nat) (t : Nat) (seen : List (List Int)) (labels l : List Int) (t' : Nat),
+      propLoop step key fuel nIter t seen labels = some (l, t') →
+      t ≤ t' ∧ l = step^[t' - t] labels ∧
+      ((∃ m, nIter = some m ∧ t' = t + m) ∨ key l ∈ seen ∨
+        ∃ d, d < t' - t ∧ key (step^[d] labels) = key l) := by
+  intro fuel
+  induction fuel with
+  | zero => intro nIter t seen labels l t' h; simp [propLoop] at h
+  | succ fuel ih =>
+    intro nIter t seen labels l t' h
+    unfold propLoop at h
+    split at h
+    · rename_i hc
+      simp only [Option.some.injEq, Prod.mk.injEq] at h
+      obtain ⟨rfl, rfl⟩ := h
+      refine ⟨le_refl _, by simp, ?_⟩
+      simp only [Bool.or_eq_true, beq_iff_eq, List.contains_iff_mem] at hc
+      rcases hc with hc | hc
+      · exact Or.inl ⟨0, hc, rfl⟩
+      · exact Or.inr (Or.inl hc)
+    · rename_i hc
+      simp only [Bool.or_eq_true, beq_iff_eq, List.contains_iff_mem, not_or] at hc
+      obtain ⟨h1, h2, h3⟩ := ih _ _ _ _ _ _ h
+      have hsub : t' - t = (t' - (t + 1)) + 1 := by omega
+      refine ⟨by omega, ?_, ?_⟩
+      · rw [h2, hsub, Function.iterate_succ_apply]
+      · rcases h3 with ⟨m', hm', ht'⟩ | hk | ⟨d, hd, hkd⟩
+        · left
+          cases nIter with
+          | none => simp at hm'
+          | some m =>
+            simp only [Option.map_some, Option.some.injEq] at hm'
+            have hm0 : m ≠ 0 := fun h0 => hc.1 (by rw [h0])
+            exact ⟨m, rfl, by omega⟩
+        · rcases List.mem_cons.mp hk with hk | hk
+          · right; right
+            exact ⟨0, by omega, by simpa using hk.symm⟩
+          · exact Or.inr (Or.inl hk)
+        · right; right
+          refine ⟨d + 1, by omega, ?_⟩
+          rw [Function.iterate_succ_apply]
+          exact hkd
+
+/-- with at least two classes the nodes updated are exactly the nodes without a given label; otherwise all nodes -/
+theorem mem_instantiateVars_index (values : List Int) (i : Nat) :
+    i ∈ (instantiateVars values).2 ↔
+      i < values.length ∧ (singleClass values = true ∨ values.getD i (-1) < 0) := by
+  unfold instantiateVars
+  cases hs : singleClass values with
+  | true => simp
+  | false =>
+    simp only [Bool.false_eq_true, if_false, false_or]
+    rw [mem_argwhere]
+    simp
 
 end SkNet.Vote
